@@ -113,6 +113,7 @@ type FuncVerifier struct {
 	anchorStmts                                  map[ast.Stmt][]int
 	letObjs                                      map[string]types.Object
 	recvVar                                      *types.Var
+	wgVars                                       map[types.Object]*types.Var
 	yields                                       map[types.Object]*yieldCtx
 	rfOverride                                   *rangeFuncOverride
 	clauseCtx                                    *clauseCtx
@@ -730,6 +731,16 @@ func (fv *FuncVerifier) merge2(a, b *State, base int) *State {
 	ca = fv.def("mc", ca)
 	out := &State{vars: map[types.Object]Term{}, heaps: map[string]Term{}, pc: append([]Term(nil), a.pc[:base]...)}
 	out.assume(or(ca, cb))
+	// specification-only variables of errgroup models start at nil when first touched
+	for _, o := range fv.wgVars {
+		_, ina := a.vars[o]
+		_, inb := b.vars[o]
+		if ina && !inb {
+			b.vars[o] = Term{"0", &Sort{Name: "Int", Kind: KErr}}
+		} else if inb && !ina {
+			a.vars[o] = Term{"0", &Sort{Name: "Int", Kind: KErr}}
+		}
+	}
 	for k, va := range a.vars {
 		vb, ok := b.vars[k]
 		if !ok {
@@ -1472,6 +1483,15 @@ func (fv *FuncVerifier) modset(n ast.Node) *modSet {
 			// calls may write heaps (decided by contracts); be conservative
 			if !fv.callIsHeapPure(n) {
 				ms.heaps = true
+			}
+			if f, ok := fv.calleeOf(n).(*types.Func); ok && funcKey(f) == "golang.org/x/sync/errgroup.Group.Go" {
+				if se, ok := ast.Unparen(n.Fun).(*ast.SelectorExpr); ok {
+					if id, ok := ast.Unparen(se.X).(*ast.Ident); ok && info.Uses[id] != nil {
+						o := fv.wgObj(info.Uses[id])
+						ms.vars[o] = true
+						ms.whole[o] = true
+					}
+				}
 			}
 		}
 		return true
